@@ -224,7 +224,9 @@ func (d *db) installSnapshot(shardID uint64,
 
 func (d *db) removeAllLocked(shardID uint64, replicaID uint64, newLog bool) error {
 	if newLog {
-		if err := d.createNewLog(); err != nil {
+		// the index of the current log must be saved before switching to a new
+		// log, open() can only rebuild the index of the most recent log
+		if err := d.switchToNewLog(); err != nil {
 			return err
 		}
 	}
